@@ -4,6 +4,7 @@ import (
 	"fmt"
 	"go/types"
 	"sort"
+	"sync"
 
 	"golang.org/x/tools/go/ssa"
 
@@ -13,9 +14,11 @@ import (
 // Fields binds *roles* to the private Policy fields that play them, derived from what the exported
 // builder API writes (public names are the stable anchor; private field names may be refactored).
 type Fields struct {
-	ByRole map[string]string // role -> field name of Policy
-	Why    map[string]string
-	Miss   []string
+	ByRole  map[string]string // role -> field name of Policy
+	Why     map[string]string
+	Miss    []string
+	Used    map[string]bool   // roles asked for through Get
+	MissWhy map[string]string // role -> why it could not be resolved
 }
 
 type roleSpec struct {
@@ -81,62 +84,118 @@ func LoadedPolicyField(v ssa.Value) string {
 	return ""
 }
 
+var (
+	fieldsMu   sync.Mutex
+	fieldsMemo = map[*load.Program]*Fields{}
+)
+
+// FindFields resolves the roles once per program (the result is shared so that role usage is recorded centrally).
 func FindFields(P *load.Program) *Fields {
-	F := &Fields{ByRole: map[string]string{}, Why: map[string]string{}}
+	fieldsMu.Lock()
+	defer fieldsMu.Unlock()
+	if F, ok := fieldsMemo[P]; ok {
+		return F
+	}
+	F := findFields(P)
+	fieldsMemo[P] = F
+	return F
+}
+
+// collectWrites gathers the Policy fields written by fn in the way rs.kind describes; role[i] says whether fn's
+// i-th parameter carries (one of) the builder's own parameters.  Calls of module functions that are handed a
+// *Policy or a builder are followed (depth ≤ 3), so a builder that delegates to another keeps resolving.
+func collectWrites(fn *ssa.Function, rs roleSpec, role []bool, depth int, seen map[*ssa.Function]bool, cands map[string]bool) {
+	if fn == nil || len(fn.Blocks) == 0 || seen[fn] || depth > 3 {
+		return
+	}
+	seen[fn] = true
+	isRoleParam := func(v ssa.Value) bool {
+		for i, p := range fn.Params {
+			if i < len(role) && role[i] && v == ssa.Value(p) {
+				return true
+			}
+		}
+		return false
+	}
+	for _, b := range fn.Blocks {
+		for _, in := range b.Instrs {
+			switch x := in.(type) {
+			case *ssa.Store:
+				f := policyField(x.Addr)
+				if f == "" {
+					continue
+				}
+				switch rs.kind {
+				case "param":
+					if isRoleParam(x.Val) {
+						cands[f] = true
+					}
+				case "true":
+					if c, ok := x.Val.(*ssa.Const); ok && c.Value != nil && c.Value.String() == "true" {
+						cands[f] = true
+					}
+				case "make":
+					if _, ok := x.Val.(*ssa.MakeMap); ok {
+						cands[f] = true
+					}
+				case "append":
+					if c, ok := x.Val.(*ssa.Call); ok {
+						if bi, ok := c.Common().Value.(*ssa.Builtin); ok && bi.Name() == "append" {
+							if LoadedPolicyField(c.Common().Args[0]) == f {
+								cands[f] = true
+							}
+						}
+					}
+				}
+			case *ssa.MapUpdate:
+				f := LoadedPolicyField(x.Map)
+				if f == "" {
+					continue
+				}
+				isSet := false
+				if st, ok := x.Value.Type().Underlying().(*types.Struct); ok && st.NumFields() == 0 {
+					isSet = true
+				}
+				if rs.kind == "mapupdate" && !isSet || rs.kind == "mapupdate-set" && isSet || rs.kind == "mapupdate" && rs.role == "skipSet" {
+					cands[f] = true
+				}
+			case *ssa.Call:
+				callee := x.Common().StaticCallee()
+				if callee == nil || callee.Pkg == nil || callee.Pkg.Pkg.Path() != load.ModPath || rs.kind == "true" || rs.kind == "make" {
+					// "true"/"make" builders (AllowComments, init, RequireSandboxOnIFrame …) call p.init(), which itself
+					// stores constants and fresh maps: delegation is not followed for these kinds
+					continue
+				}
+				if callee.Name() == "init" {
+					continue
+				}
+				sub := make([]bool, len(callee.Params))
+				for i, a := range x.Common().Args {
+					if i < len(sub) && isRoleParam(a) {
+						sub[i] = true
+					}
+				}
+				collectWrites(callee, rs, sub, depth+1, seen, cands)
+			}
+		}
+	}
+}
+
+func findFields(P *load.Program) *Fields {
+	F := &Fields{ByRole: map[string]string{}, Why: map[string]string{}, Used: map[string]bool{}, MissWhy: map[string]string{}}
 	for _, rs := range roleSpecs {
 		fn := P.Func(load.ModPath, rs.method)
 		if fn == nil {
 			F.Miss = append(F.Miss, rs.role+": builder "+rs.method+" not found")
+			F.MissWhy[rs.role] = "builder " + rs.method + " not found"
 			continue
 		}
 		cands := map[string]bool{}
-		for _, b := range fn.Blocks {
-			for _, in := range b.Instrs {
-				switch x := in.(type) {
-				case *ssa.Store:
-					f := policyField(x.Addr)
-					if f == "" {
-						continue
-					}
-					switch rs.kind {
-					case "param":
-						for _, p := range fn.Params[1:] {
-							if x.Val == ssa.Value(p) {
-								cands[f] = true
-							}
-						}
-					case "true":
-						if c, ok := x.Val.(*ssa.Const); ok && c.Value != nil && c.Value.String() == "true" {
-							cands[f] = true
-						}
-					case "make":
-						if _, ok := x.Val.(*ssa.MakeMap); ok {
-							cands[f] = true
-						}
-					case "append":
-						if c, ok := x.Val.(*ssa.Call); ok {
-							if bi, ok := c.Common().Value.(*ssa.Builtin); ok && bi.Name() == "append" {
-								if LoadedPolicyField(c.Common().Args[0]) == f {
-									cands[f] = true
-								}
-							}
-						}
-					}
-				case *ssa.MapUpdate:
-					f := LoadedPolicyField(x.Map)
-					if f == "" {
-						continue
-					}
-					isSet := false
-					if st, ok := x.Value.Type().Underlying().(*types.Struct); ok && st.NumFields() == 0 {
-						isSet = true
-					}
-					if rs.kind == "mapupdate" && !isSet || rs.kind == "mapupdate-set" && isSet || rs.kind == "mapupdate" && rs.role == "skipSet" {
-						cands[f] = true
-					}
-				}
-			}
+		role := make([]bool, len(fn.Params))
+		for i := 1; i < len(role); i++ {
+			role[i] = true
 		}
+		collectWrites(fn, rs, role, 0, map[*ssa.Function]bool{}, cands)
 		var names []string
 		for f := range cands {
 			names = append(names, f)
@@ -144,6 +203,7 @@ func FindFields(P *load.Program) *Fields {
 		sort.Strings(names)
 		if len(names) != 1 {
 			F.Miss = append(F.Miss, fmt.Sprintf("%s: builder %s writes %d candidate fields %v (need exactly 1)", rs.role, rs.method, len(names), names))
+			F.MissWhy[rs.role] = fmt.Sprintf("builder %s writes %d candidate fields %v (need exactly 1)", rs.method, len(names), names)
 			continue
 		}
 		F.ByRole[rs.role] = names[0]
@@ -152,5 +212,27 @@ func FindFields(P *load.Program) *Fields {
 	return F
 }
 
-// Get returns the field name for a role ("" if unresolved).
-func (F *Fields) Get(role string) string { return F.ByRole[role] }
+// Get returns the field name for a role ("" if unresolved) and records that the role was needed.
+func (F *Fields) Get(role string) string {
+	fieldsMu.Lock()
+	F.Used[role] = true
+	fieldsMu.Unlock()
+	return F.ByRole[role]
+}
+
+// UsedMissing lists the unresolved roles that were asked for, with the reason.
+func (F *Fields) UsedMissing() map[string]string {
+	fieldsMu.Lock()
+	defer fieldsMu.Unlock()
+	out := map[string]string{}
+	for r := range F.Used {
+		if _, ok := F.ByRole[r]; !ok {
+			why := F.MissWhy[r]
+			if why == "" {
+				why = "no such role"
+			}
+			out[r] = why
+		}
+	}
+	return out
+}
